@@ -38,6 +38,11 @@ claim('C09', 'CrossHair symbolic execution of small_factors (symbolic n) and _ge
       'for all k, z3 regex-theory equivalence of terminal-level repetition patterns, and CrossHair-driven end-to-end parses around the bounds',
       'Bounded in n, mx, m (stated in evidence); unbounded in the repetition count k (LIA) and in the matched string (regex theory).',
       'Trusted: z3 LIA/regex theory, the compositional interval argument (sum of intervals is an interval; union checked by z3).', '3/C09')
+claim('C12', 'CrossHair solver-closed enumeration of fault positions (truncation offsets, byte replacements) and build histories over an in-memory file-system stub, realised; '
+      'behavioural equivalence with an uncached build plus a rebuild counter',
+      'Fault enumeration in the solver-based style: the abstract fault domain is closed by CrossHair (quick: every pickle opcode/argument boundary; thorough: every byte); the rest runs concretely '
+      'because pickle is a C extension. Equivalence is judged on a probe set.',
+      'Trusted: the FS stub contract; probe-set equivalence; lark logger silenced.', '3/C12')
 claim('C13', 'CrossHair symbolic execution of the real InteractiveParser / ImmutableInteractiveParser / ParserState / LexerThread code over symbolic fork histories '
       '(prefix, fork kind, two continuations, interleaving, accepts step; resume/exhaust with text attached; resume from an error state)',
       'Bounded in prefix/continuation length and fork depth (2 levels); every parser must end with parse() of exactly its own token sequence; accepts() exact.',
